@@ -1,75 +1,9 @@
-"""Behaviour-preserving variant generator: rename every function-local variable (not parameters, not globals/nonlocals, not names
-shared with nested functions) in every module of a scratch copy of /repo.  usage: benign_rename.py <dst-dir> [suffix]"""
-import ast, os, shutil, sys
+"""Behaviour-preserving variant generator: rename every function-local variable in a scratch copy of /repo (see fv/variants.py).
+usage: benign_rename.py <dst-dir> [suffix] [--with-tests]"""
+import os, sys
+sys.path.insert(0, os.path.join(os.path.dirname(os.path.abspath(__file__)), ".."))
+from fv.variants import make_rename
 
-dst = sys.argv[1]
-suffix = sys.argv[2] if len(sys.argv) > 2 else "_rn"
-shutil.rmtree(dst, ignore_errors=True)
-os.makedirs(dst)
-for item in ("compile.py", "dsl_compiler", "lib", "doc", "example_programs", "README.md", "LANGUAGE_SPEC.md"):
-    src = os.path.join("/repo", item)
-    if os.path.isdir(src):
-        shutil.copytree(src, os.path.join(dst, item), ignore=shutil.ignore_patterns("__pycache__", "*.pyc", "*.png", "*.gif", "tests"))
-    elif os.path.exists(src):
-        shutil.copy2(src, os.path.join(dst, item))
-
-
-def local_walk(fn):
-    stack = list(fn.body)
-    while stack:
-        n = stack.pop()
-        yield n
-        for c in ast.iter_child_nodes(n):
-            if isinstance(c, (ast.FunctionDef, ast.AsyncFunctionDef, ast.ClassDef, ast.Lambda)):
-                continue
-            stack.append(c)
-
-
-def rename_function(fn):
-    params = {a.arg for a in fn.args.posonlyargs + fn.args.args + fn.args.kwonlyargs}
-    if fn.args.vararg:
-        params.add(fn.args.vararg.arg)
-    if fn.args.kwarg:
-        params.add(fn.args.kwarg.arg)
-    declared = set()
-    nested_names = set()
-    for n in ast.walk(fn):
-        if isinstance(n, (ast.Global, ast.Nonlocal)):
-            declared |= set(n.names)
-        if n is not fn and isinstance(n, (ast.FunctionDef, ast.AsyncFunctionDef, ast.Lambda, ast.ClassDef)):
-            for x in ast.walk(n):
-                if isinstance(x, ast.Name):
-                    nested_names.add(x.id)
-                if isinstance(x, ast.arg):
-                    nested_names.add(x.arg)
-    stores = set()
-    for n in local_walk(fn):
-        if isinstance(n, ast.Name) and isinstance(n.ctx, ast.Store):
-            stores.add(n.id)
-        if isinstance(n, ast.ExceptHandler) and n.name:
-            declared.add(n.name)
-        if isinstance(n, (ast.Import, ast.ImportFrom)):
-            for al in n.names:
-                declared.add((al.asname or al.name).split(".")[0])
-    targets = {s for s in stores if s not in params and s not in declared and s not in nested_names and not s.startswith("__") and s != "_"}
-    count = 0
-    for n in local_walk(fn):
-        if isinstance(n, ast.Name) and n.id in targets:
-            n.id = n.id + suffix
-            count += 1
-    return count
-
-
-total = 0
-for root, _d, files in os.walk(dst):
-    for fnm in files:
-        if not fnm.endswith(".py"):
-            continue
-        p = os.path.join(root, fnm)
-        src = open(p).read()
-        tree = ast.parse(src)
-        for n in ast.walk(tree):
-            if isinstance(n, (ast.FunctionDef, ast.AsyncFunctionDef)):
-                total += rename_function(n)
-        open(p, "w").write(ast.unparse(tree) + "\n")
-print("renamed", total, "name occurrences")
+args = [a for a in sys.argv[1:] if not a.startswith("--")]
+n = make_rename(os.environ.get("FV_REPO", "/repo"), args[0], args[1] if len(args) > 1 else "_rn", "--with-tests" in sys.argv)
+print("renamed", n, "name occurrences")
